@@ -404,6 +404,45 @@ func runC02(c *Ctx) {
 			c.ok("X2", key, c.ipos(r), "accept guarded by a containment predicate on Join(destination, name)")
 		}
 	})
+	// X2b: the nested destination is Join(Dir(d), FilepathStem(d)); the stem of an accepted path must not be "..":
+	// every accepting return other than `p == destination` must also be on the false side of strings.Contains(p, "..")
+	usesStem := false
+	for _, g := range fns {
+		allInstrs(g, func(in ssa.Instruction) {
+			if cl, ok := in.(*ssa.Call); ok && (strings.HasSuffix(calleeFull(&cl.Call), "filesystem.FilepathStem") || calleeFull(&cl.Call) == "path/filepath.Base") {
+				usesStem = true
+			}
+		})
+	}
+	if usesStem {
+		noDots := func(v ssa.Value) bool {
+			cl, ok := v.(*ssa.Call)
+			if !ok || calleeFull(&cl.Call) != "strings.Contains" {
+				return false
+			}
+			s2, isC := constString(cl.Call.Args[1])
+			return isC && s2 == ".." && (isJoined(cl.Call.Args[0]) || cl.Call.Args[0] == ssa.Value(nameP))
+		}
+		isEq := func(v ssa.Value) bool {
+			b, ok := v.(*ssa.BinOp)
+			return ok && b.Op == token.EQL && (isJoined(b.X) || isJoined(b.Y))
+		}
+		bad := ""
+		allInstrs(san, func(in ssa.Instruction) {
+			r, ok := in.(*ssa.Return)
+			if !ok || isErrorExit(san, r) {
+				return
+			}
+			if onBoolSide(r, true, isEq) {
+				return
+			}
+			if !onBoolSide(r, false, noDots) {
+				bad = c.ipos(r)
+			}
+		})
+		c.check(bad == "", "X2", fname(san)+"/no-parent-component", c.pos(san.Pos()), "accepted paths contain no \"..\": the stem used for a nested archive's destination cannot be a parent reference",
+			"the accepting return at "+bad+" admits paths containing \"..\" while the extraction derives the destination of a nested archive from the stem of the accepted path (Join(Dir(d), FilepathStem(d))): an entry named `...zip` is then extracted into the parent of the destination")
+	}
 	if accepts == 0 {
 		c.violate("X2", fname(san)+"/accept", c.pos(san.Pos()), "the sanitiser accepts nothing or is no longer recognisable")
 	}
